@@ -6,6 +6,7 @@ import (
 	"encoding/hex"
 	"encoding/json"
 	"fmt"
+	"strconv"
 	"strings"
 	"testing"
 
@@ -74,10 +75,10 @@ func TestC07(t *testing.T) {
 			if isv < 0 {
 				isv = 0
 			}
-			d.Levels = append(d.Levels, gen.QeLevel{Isvsvn: uint32(isv), Status: rapid.SampledFrom([]string{"UpToDate", "UpToDate", "UpToDate", "SWHardeningNeeded", "ConfigurationNeeded", "ConfigurationAndSWHardeningNeeded", "OutOfDate", "OutOfDateConfigurationNeeded", "Revoked"}).Draw(t, "status")})
+			d.Levels = append(d.Levels, gen.QeLevel{Date: gen.LevelDates[s.Intn(len(gen.LevelDates))], Isvsvn: uint32(isv), Status: rapid.SampledFrom([]string{"UpToDate", "UpToDate", "UpToDate", "SWHardeningNeeded", "ConfigurationNeeded", "ConfigurationAndSWHardeningNeeded", "OutOfDate", "OutOfDateConfigurationNeeded", "Revoked"}).Draw(t, "status")})
 		}
 		pert := rapid.SampledFrom([]string{"none", "none", "report-misc-bit", "report-attr-bit", "id-misc-bit", "id-attr-bit", "mask-misc-bit", "mask-attr-bit", "mrsigner-bit", "report-mrsigner-bit", "prodid", "report-prodid",
-			"misc-3", "misc-5", "miscmask-3", "miscmask-5", "attr-15", "attr-17", "attrmask-15", "attrmask-17", "mrsigner-31", "mrsigner-33", "upper-hex", "report-isvsvn"}).Draw(t, "perturb")
+			"misc-3", "misc-5", "miscmask-3", "miscmask-5", "attr-15", "attr-17", "attrmask-15", "attrmask-17", "mrsigner-31", "mrsigner-33", "upper-hex", "report-isvsvn", "mrsigner-prodid-boundary-shift", "mrsigner-prodid-boundary-shift"}).Draw(t, "perturb")
 		switch pert {
 		case "report-misc-bit":
 			q.QeMiscSelect ^= 1 << uint(rapid.IntRange(0, 31).Draw(t, "bit"))
@@ -126,6 +127,23 @@ func TestC07(t *testing.T) {
 			d.Mrsigner = d.Mrsigner[:31]
 		case "mrsigner-33":
 			d.Mrsigner = append(d.Mrsigner, longTail(t, s)...)
+		case "mrsigner-prodid-boundary-shift":
+			// neither field equal, but "mrsigner followed by isvprodid" written without a separator reads the same: the
+			// identity's mrsigner lacks the report's last one or two bytes (decimal-looking in hex), and its isvprodid is
+			// those hex digits followed by the report's ISVPRODID, read as one decimal number
+			n := rapid.IntRange(1, 2).Draw(t, "shiftBytes")
+			tail := []byte{0x12, 0x34}[:n]
+			if n == 1 {
+				tail = []byte{byte(rapid.SampledFrom([]int{0x12, 0x01, 0x99, 0x10}).Draw(t, "tailByte"))}
+			}
+			copy(q.QeMrSigner[32-n:], tail)
+			q.QeIsvProdID = uint16(rapid.IntRange(0, 9).Draw(t, "reportProdID"))
+			d.Mrsigner = append([]byte{}, q.QeMrSigner[:32-n]...)
+			v, _ := strconv.Atoi(fmt.Sprintf("%x%d", tail, q.QeIsvProdID))
+			if v > 65535 {
+				v %= 65536 // (then the two renderings differ anyway)
+			}
+			d.IsvProdID = uint16(v)
 		case "upper-hex":
 			d.UpperHex = true
 		case "report-isvsvn":
